@@ -53,3 +53,23 @@ Fixpoint calls_loop {S : Type} (step : S -> N -> option (S * N)) (s : S) (chunks
       end
     end
   end.
+
+(* for x in LIST { BODY } with a carried state; the body may leave the loop early with a result
+   (inl r: a `return r` inside the loop) or go on with the next state (inr s); None is a panic *)
+Fixpoint for_loop {S R A : Type} (body : S -> A -> option (R + S)) (s : S) (l : list A) : option (R + S) :=
+  match l with
+  | [] => Some (inr s)
+  | x :: r =>
+    match body s x with
+    | None => None
+    | Some (inl e) => Some (inl e)
+    | Some (inr s') => for_loop body s' r
+    end
+  end.
+
+(* lo..hi *)
+Definition range_list (lo hi : N) : list N := map (fun k => lo + N.of_nat k) (seq 0 (N.to_nat (hi - lo))).
+(* iter.enumerate() *)
+Fixpoint enumerate_from {A : Type} (i : N) (l : list A) : list (N * A) :=
+  match l with [] => [] | x :: r => (i, x) :: enumerate_from (i + 1) r end.
+Definition enumerate_list {A : Type} (l : list A) : list (N * A) := enumerate_from 0 l.
